@@ -30,7 +30,7 @@ ASSUMPTIONS = [
     "duration formats are installed as format-list records (no public API for duration formats); observation is Cell.formatted_value after reload",
     "compact style with automatic units does not name its units: some contiguous unit range with as many units as the text has fields must read back",
 ]
-EXHAUSTIVE = {"quick": True, "thorough": True}
+EXHAUSTIVE = {"quick": False, "thorough": False}
 EXHAUSTIVE_NOTE = "every directive x every value of its field (hours, minutes, seconds, all days of 2023 and 2024, listed years and sub-seconds)"
 
 
